@@ -196,6 +196,24 @@ func isoCase(id int) O {
 		}(k)
 	}
 	wg.Wait()
+	// ... and through the engine's wrapper for compiled actions (core.FuncAction), several executions at once on ONE bindings
+	// map that has a permanent binding: what is given to an execution is only read (the race build is the sensor for a write)
+	shared := freshBs()
+	shared["keep!"] = map[string]interface{}{"k": float64(1)}
+	if act, err := (&core.ActionSource{Interpreter: "ecmascript", Source: probeSrc}).Compile(ctx, core.InterpretersMap{"ecmascript": in}); err == nil {
+		var swg sync.WaitGroup
+		for k := 0; k < 6; k++ {
+			swg.Add(1)
+			go func() {
+				defer swg.Done()
+				defer func() { recover() }()
+				for j := 0; j < 3; j++ {
+					act.Exec(ctx, shared, freshProps())
+				}
+			}()
+		}
+		swg.Wait()
+	}
 	return O{"id": id, "kind": "iso", "propsMode": propsMode, "bsMode": bsMode, "polluters": seq, "solo": solo, "after": after, "concurrent": conc,
 		"bsBefore": bsBefore, "bsAfter": bsAfter, "propsBefore": propsBefore, "propsAfter": propsAfter,
 		"raw": enc.Canon(O{"polluters": names})}
